@@ -344,7 +344,8 @@ private:
     // Read 1 bit image. The colors are encoded by an index.
     void read_1_bit_row( byte_t* dst )
     {
-        this->_io_dev.read( &_buffer.front(), _pitch );
+        io_error_if( this->_io_dev.read( &_buffer.front(), _pitch ) != static_cast< std::size_t >( _pitch )
+                       , "Unexpected end of image data." );
         _mirror_bits( _buffer );
 
         read_bit_row< gray1_image_t::view_t >( dst );
@@ -353,7 +354,8 @@ private:
     // Read 4 bits image. The colors are encoded by an index.
     void read_4_bits_row( byte_t* dst )
     {
-        this->_io_dev.read( &_buffer.front(), _pitch );
+        io_error_if( this->_io_dev.read( &_buffer.front(), _pitch ) != static_cast< std::size_t >( _pitch )
+                       , "Unexpected end of image data." );
         _swap_half_bytes( _buffer );
 
         read_bit_row< gray4_image_t::view_t >( dst );
@@ -362,7 +364,8 @@ private:
     /// Read 8 bits image. The colors are encoded by an index.
     void read_8_bits_row( byte_t* dst )
     {
-        this->_io_dev.read( &_buffer.front(), _pitch );
+        io_error_if( this->_io_dev.read( &_buffer.front(), _pitch ) != static_cast< std::size_t >( _pitch )
+                       , "Unexpected end of image data." );
 
         read_bit_row< gray8_image_t::view_t >( dst );
     }
@@ -382,7 +385,8 @@ private:
 
         //
         byte_t* src = &_buffer.front();
-        this->_io_dev.read( src, _pitch );
+        io_error_if( this->_io_dev.read( src, _pitch ) != static_cast< std::size_t >( _pitch )
+                       , "Unexpected end of image data." );
 
         for( dst_view_t::x_coord_t i = 0
            ; i < this->_info._width
@@ -403,7 +407,8 @@ private:
 
     void read_row( byte_t* dst )
     {
-        this->_io_dev.read( dst, _pitch );
+        io_error_if( this->_io_dev.read( dst, _pitch ) != static_cast< std::size_t >( _pitch )
+                       , "Unexpected end of image data." );
     }
 
 private:
